@@ -266,6 +266,10 @@ static econf_err pr_key_file(struct econf_file *key_file)
 		}
 		v++;
 	      }
+	      if (v==0) {
+		/* key without a value */
+		printf("\n");
+	      }
 	      econf_freeExtValue(value);
 	    }
         }
